@@ -17,6 +17,7 @@ package c07
 import (
 	"context"
 	"encoding/json"
+	"errors"
 	"fmt"
 	"sort"
 	"strconv"
@@ -236,7 +237,7 @@ type cancelCase struct {
 	Vars  int     `json:"vars,omitempty"`
 	N     int     `json:"n"`             // poll cap of the reference run
 	K     int     `json:"k"`             // the context is cancelled at the K-th poll of Done()
-	Ctx   string  `json:"ctx,omitempty"` // count (run.CountCtx) | sentinel | precancelled | deadline | between (K = items taken before cancel())
+	Ctx   string  `json:"ctx,omitempty"` // at poll K: count (run.CountCtx) | sentinel | custom | cause | cause-child | cause-value; K = 0: one of preDoneKinds ("raw:" = unwrapped) or noDoneKinds; between[:kind] (K = items taken before cancel())
 	Via   string  `json:"via,omitempty"` // code (Code.RunWithContext) | query (Query.RunWithContext)
 }
 
@@ -244,8 +245,13 @@ func mkCtx(kind string, k int) fctx {
 	switch kind {
 	case "sentinel":
 		return newPollCtx(k, errSentinel)
+	case "custom":
+		return newPollCtx(k, errCustom)
 	case "precancelled", "deadline":
 		return newPreCancelled(kind)
+	}
+	if isStdKind(kind) {
+		return newStdCtx(kind, k) // a standard context that gets cancelled (with its cause) at its k-th poll
 	}
 	return cctx{run.NewCountCtx(k)}
 }
@@ -282,7 +288,7 @@ func cancelAt(p *prepared, c cancelCase, input any, ref *refRun, k int) string {
 		}
 		got := mkItem(v, ctx.N(), 0)
 		if ctx.N() >= k {
-			return fmt.Sprintf("promptness: Next returned %s after %d polls although the context was cancelled at poll %d; the next step must return the context's error (ctx.Err() = %v)", got, ctx.N(), k, ctx.Err())
+			return fmt.Sprintf("promptness: Next returned %s after %d polls although the context was cancelled at poll %d; the next step must return the context's error (ctx.Err() = %v)%s", got, ctx.N(), k, ctx.Err(), causeNote(ctx, v))
 		}
 		if idx >= len(ref.items) {
 			return fmt.Sprintf("prefix: cancelled at poll %d, item #%d %s is not emitted by the uncancelled run (%d items in %d polls)", k, idx, got, len(ref.items), ref.total)
@@ -320,12 +326,91 @@ func checkCancel(sub string, c cancelCase) string {
 	if ref.pan != "" {
 		return ref.pan
 	}
-	if c.K < 1 {
+	switch {
+	case isNoDone(c.Ctx):
+		arm(sub, c, "the run under a context that cannot be cancelled, as far as the reference run shows it to be bounded")
+		defer disarm()
+		return neverDoneAt(p, c, input, &ref)
+	case isPreDone(c.Ctx) && c.K == 0:
+		arm(sub, c, "the run under a context that is already done")
+		defer disarm()
+		return preDoneAt(p, c, input)
+	case c.K < 1:
 		return ""
 	}
 	arm(sub, c, "the run cancelled at poll k")
 	defer disarm()
 	return cancelAt(p, c, input, &ref, c.K)
+}
+
+// preDoneAt: the context is already done when RunWithContext is called (K = 0).
+// The first Next must deliver exactly ctx.Err() - not the cause a user gave to
+// the cancellation, not a copy - and the iterator is exhausted afterwards.
+func preDoneAt(p *prepared, c cancelCase, input any) string {
+	var ctx context.Context
+	if strings.TrimPrefix(c.Ctx, "raw:") == "pre-custom" {
+		pc := newPollCtx(0, errCustom)
+		pc.fire()
+		ctx = pc
+	} else {
+		rc := newPreCancelled(c.Ctx)
+		defer rc.cancel()
+		ctx = rc
+	}
+	want := ctx.Err()
+	if want == nil {
+		return "bad case: the context is not done"
+	}
+	p.hold.reset(0, nil)
+	it := p.start(ctx, c.Via, univ.Copy(input))
+	v, ok, pan := safeNext(it)
+	if pan != "" {
+		return fmt.Sprintf("context %s already done: the first Next panicked: %s", c.Ctx, pan)
+	}
+	err, isErr := v.(error)
+	if !ok || !isErr || err != want || !errors.Is(err, want) {
+		return fmt.Sprintf("context %s is already done when RunWithContext (%s) is called: the first Next returned (%s, %v); want exactly ctx.Err() = %v%s", c.Ctx, c.Via, mkItem(v, 0, 0), ok, want, causeNote(ctx, v))
+	}
+	for j := 1; j <= 3; j++ {
+		v, ok, pan := safeNext(it)
+		if pan != "" {
+			return fmt.Sprintf("terminal: context %s already done, call #%d of Next after the context's error panicked: %s", c.Ctx, j, pan)
+		}
+		if ok || v != nil {
+			return fmt.Sprintf("terminal: context %s already done, call #%d of Next after the context's error returned (%s, %v); want (nil, false)", c.Ctx, j, mkItem(v, 0, 0), ok)
+		}
+	}
+	return ""
+}
+
+// neverDoneAt: a context whose Done() is nil can never be cancelled; the run
+// is the uncancelled run (as far as the reference shows each Next to return).
+func neverDoneAt(p *prepared, c cancelCase, input any, ref *refRun) string {
+	ctx := newNoDone(c.Ctx)
+	p.hold.reset(0, nil)
+	it := p.start(ctx, c.Via, univ.Copy(input))
+	for idx := range ref.items {
+		v, ok, pan := safeNext(it)
+		if pan != "" {
+			return fmt.Sprintf("context %s: Next panicked at item #%d: %s", c.Ctx, idx, pan)
+		}
+		if got := mkItem(v, 0, 0); !ok || !sameItem(ref.items[idx], got) {
+			return fmt.Sprintf("prefix: context %s (Done() == nil, never cancelled): item #%d is (%s, %v), the reference run emits %s", c.Ctx, idx, got, ok, ref.items[idx])
+		}
+	}
+	if !ref.ended {
+		return "" // an endless run: the iterator is abandoned
+	}
+	for j := 1; j <= 3; j++ {
+		v, ok, pan := safeNext(it)
+		if pan != "" {
+			return fmt.Sprintf("context %s: call #%d of Next at the end panicked: %s", c.Ctx, j, pan)
+		}
+		if ok || v != nil {
+			return fmt.Sprintf("context %s (Done() == nil): call #%d of Next after the %d items of the reference run returned (%s, %v); want (nil, false)", c.Ctx, j, len(ref.items), mkItem(v, 0, 0), ok)
+		}
+	}
+	return ""
 }
 
 // ksFor lists the cancellation points examined for a reference run: all of
@@ -349,10 +434,23 @@ func ksFor(ref *refRun, n int, dense, stride int) []int {
 }
 
 func ctxKindFor(k int) string {
-	if k%4 == 3 {
+	switch {
+	case k%8 == 3:
 		return "sentinel"
+	case k%8 == 7:
+		return "custom" // own context type, own error type
+	case k%16 == 1:
+		return "cause" // context.WithCancelCause cancelled with a cause at its k-th poll
+	case k%32 == 9:
+		return "cause-child"
+	case k%32 == 25:
+		return "cause-value"
 	}
 	return "count"
+}
+
+func tickKindFor(n int) string {
+	return []string{"real", "sentinel", "cause", "sentinel", "cause-child", "sentinel", "cause-value", "sentinel"}[n%8]
 }
 
 // ---------------------------------------------------------------------------
@@ -369,8 +467,8 @@ type tickCase struct {
 
 func tickAt(p *prepared, c tickCase, input any, ref *refRun, n int) string {
 	var ctx fctx
-	if c.Ctx == "real" {
-		rc := newRealCtx()
+	if isStdKind(c.Ctx) {
+		rc := newStdCtx(c.Ctx, 0)
 		defer rc.cancel()
 		p.hold.reset(n, rc.fire)
 		ctx = rc
@@ -407,7 +505,7 @@ func tickAt(p *prepared, c tickCase, input any, ref *refRun, n int) string {
 		}
 		got := mkItem(v, 0, h.ticks)
 		if ctx.Hit() {
-			return fmt.Sprintf("promptness: Next returned %s although cancel() had been called inside tick #%d; the next step must return the context's error (ctx.Err() = %v)", got, n, ctx.Err())
+			return fmt.Sprintf("promptness: Next returned %s although cancel() had been called inside tick #%d; the next step must return the context's error (ctx.Err() = %v)%s", got, n, ctx.Err(), causeNote(ctx, v))
 		}
 		if idx >= len(ref.items) {
 			return fmt.Sprintf("prefix: cancel() inside tick #%d: item #%d %s is not emitted by the uncancelled run", n, idx, got)
@@ -474,8 +572,8 @@ func oneCtx(kind string) (context.Context, bool) {
 		return run.NewCountCtx(1), false // would fire at its first poll (it is never polled)
 	case "sentinel-1":
 		return newPollCtx(1, errSentinel), false
-	case "precancelled", "deadline":
-		return newPreCancelled(kind), true
+	case "precancelled", "deadline", "pre-cause", "deadline-cause", "raw:pre-cause-child":
+		return newPreCancelled(kind).arg(), true
 	}
 	return context.Background(), false
 }
@@ -694,7 +792,8 @@ func replayCase(sub string, raw json.RawMessage) string {
 // calls of Next (after having taken i items)
 
 func betweenAt(p *prepared, c cancelCase, input any, ref *refRun, i int) string {
-	rc := newRealCtx()
+	kind := strings.TrimPrefix(strings.TrimPrefix(c.Ctx, "between"), ":")
+	rc := newStdCtx(kind, 0) // "" = context.WithCancel
 	defer rc.cancel()
 	p.hold.reset(0, nil)
 	it := p.start(rc, c.Via, univ.Copy(input))
@@ -714,7 +813,7 @@ func betweenAt(p *prepared, c cancelCase, input any, ref *refRun, i int) string 
 		return fmt.Sprintf("cancelled after %d items: Next panicked: %s", i, pan)
 	}
 	if err, isErr := v.(error); !ok || !isErr || err != rc.Err() {
-		return fmt.Sprintf("promptness: the context was cancelled after %d items had been taken; the next call of Next returned (%s, %v) after %d polls, want the context's error", i, mkItem(v, 0, 0), ok, rc.N()-before)
+		return fmt.Sprintf("promptness: the context (%s) was cancelled after %d items had been taken; the next call of Next returned (%s, %v) after %d polls, want the context's error%s", c.Ctx, i, mkItem(v, 0, 0), ok, rc.N()-before, causeNote(rc, v))
 	}
 	if d := rc.N() - before; d != 1 {
 		return fmt.Sprintf("promptness: the context was cancelled after %d items had been taken; the next call of Next polled Done() %d times before returning the context's error (want 1: its first step)", i, d)
@@ -875,7 +974,7 @@ func TestC07(t *testing.T) {
 	// ------------------------------------------------------------------
 	// (E1) one-shot iterators: every (declared, given) variable count pair,
 	// every non-compiling query of the list, under every kind of context
-	oneCtxs := []string{"background", "count-never", "count-1", "sentinel-1", "precancelled", "deadline"}
+	oneCtxs := []string{"background", "count-never", "count-1", "sentinel-1", "precancelled", "deadline", "pre-cause", "deadline-cause", "raw:pre-cause-child"}
 	idx := 0
 	for _, ck := range oneCtxs {
 		for _, q := range []string{".", "$v0", "range(3)", "def f: f; f"} {
@@ -915,7 +1014,7 @@ func TestC07(t *testing.T) {
 			}
 		}
 	}
-	rec.Exhaustive("one-shot iterators: 4 queries x declared 0..4 x given 0..6 variable values (unequal) and the non-compiling queries, x 6 kinds of context", true)
+	rec.Exhaustive("one-shot iterators: 4 queries x declared 0..4 x given 0..6 variable values (unequal) and the non-compiling queries, x 9 kinds of context", true)
 
 	if tooMany() {
 		return
@@ -956,7 +1055,7 @@ func TestC07(t *testing.T) {
 			}
 			c := base
 			c.Nth = n
-			c.Ctx = map[bool]string{true: "real", false: "sentinel"}[n%2 == 0]
+			c.Ctx = tickKindFor(n)
 			rec.Eval()
 			rec.NT("t|" + c.Prog + "|" + c.In + "|" + strconv.Itoa(n))
 			rec.Class("tick/ctx/" + c.Ctx)
@@ -1111,6 +1210,46 @@ func TestC07(t *testing.T) {
 					complete = false
 				}
 			}
+			// every kind of context that is already done (with and without
+			// a cause, children, own type; wrapped for counting and as it
+			// is), and every kind whose Done() is nil, through both entries
+			vias := []string{"code"}
+			if p.query != nil {
+				vias = append(vias, "query")
+			}
+			for _, via := range vias {
+				for _, kind := range preDoneKinds {
+					for _, raw := range []string{"", "raw:"} {
+						if raw != "" && kind == "pre-custom" {
+							continue
+						}
+						c := base
+						c.K, c.Ctx, c.Via = 0, raw+kind, via
+						rec.Eval()
+						rec.Class("cancel/ctx/already-done/" + kind)
+						arm("cancel", c, "the run under a context that is already done")
+						msg := preDoneAt(p, c, input)
+						disarm()
+						if msg != "" {
+							rec.Direct("cancel", c, "%s", msg)
+							complete = false
+						}
+					}
+				}
+				for _, kind := range noDoneKinds {
+					c := base
+					c.K, c.Ctx, c.Via = 0, kind, via
+					rec.Eval()
+					rec.Class("cancel/ctx/" + kind)
+					arm("cancel", c, "the run under a context that cannot be cancelled, as far as the reference run shows it to be bounded")
+					msg := neverDoneAt(p, c, input, &ref)
+					disarm()
+					if msg != "" {
+						rec.Direct("cancel", c, "%s", msg)
+						complete = false
+					}
+				}
+			}
 		}
 		// the consumer cancels after i items
 		loop := loops(p, ref.total)
@@ -1119,7 +1258,7 @@ func TestC07(t *testing.T) {
 				continue
 			}
 			c := base
-			c.K, c.Ctx, c.Via = i, "between", map[bool]string{true: "query", false: "code"}[p.query != nil && i%3 == 1]
+			c.K, c.Ctx, c.Via = i, []string{"between", "between:cause", "between", "between:cause-child", "between:cause-value"}[i%5], map[bool]string{true: "query", false: "code"}[p.query != nil && i%3 == 1]
 			rec.Eval()
 			if loop {
 				rec.NT("b|" + c.Prog + "|" + c.In + "|" + strconv.Itoa(i))
@@ -1218,7 +1357,7 @@ func TestC07(t *testing.T) {
 		for n := 1; n <= top; n++ {
 			c := base
 			c.Nth = n
-			c.Ctx = map[bool]string{true: "real", false: "sentinel"}[n%2 == 0]
+			c.Ctx = tickKindFor(n)
 			rec.Eval()
 			if !rec.Thorough() || n%4 == 1 {
 				rec.NT("t|" + src + "|" + inputKey(c.Input) + "|" + strconv.Itoa(n))
